@@ -386,7 +386,7 @@ def cases():
 
 class ClimAdd(Case):
     """ClimatologyConfig.add / convert: the stored member has sorted spans; unknown period names
-    are rejected.  params: period, hasz, hasf, via in {'add','convert'}"""
+    are rejected; earlier members stay in place and the new one goes last.  params: period, hasz, hasf, via in {'add','convert','append'}"""
 
     module = "ioos_qc.qartod"
     function = "ClimatologyConfig.add"
@@ -416,6 +416,11 @@ class ClimAdd(Case):
         if self.params["via"] == "add":
             cfg = mod.ClimatologyConfig()
             cfg.add(**kw)
+        elif self.params["via"] == "append":
+            # add on a configuration that already holds members: they stay, the new one goes last
+            self._old = [mod.ClimatologyConfig.mem(mod.span(1, 2), None, mod.span(3, 4), None, "month"), mod.ClimatologyConfig.mem(mod.span(5, 6), None, mod.span(7, 8), mod.span(0, 1), "week")]
+            cfg = mod.ClimatologyConfig(list(self._old))
+            cfg.add(**kw)
         else:
             cfg = mod.ClimatologyConfig.convert([kw])
         return cfg
@@ -431,6 +436,10 @@ class ClimAdd(Case):
     def post_global(self, e, res):
         cfg = res.value
         ms = cfg.members
+        if self.params["via"] == "append":
+            if len(ms) != 3 or tuple(ms[0]) != tuple(self._old[0]) or tuple(ms[1]) != tuple(self._old[1]):
+                return {"member_has_sorted_spans": False}
+            ms = ms[2:]
         if len(ms) != 1:
             return {"member_has_sorted_spans": False}
         m = ms[0]
@@ -710,6 +719,8 @@ def add_cases():
     cs.append(ClimAdd(period="month", hasz=True, hasf=True, via="convert"))
     cs.append(ClimAdd(period=None, hasz=False, hasf=False, via="convert"))
     cs.append(ClimAdd(period="bogus", hasz=False, hasf=False, via="add"))
+    cs.append(ClimAdd(period="dayofyear", hasz=True, hasf=False, via="append"))
+    cs.append(ClimAdd(period=None, hasz=False, hasf=True, via="append"))
     cs.append(ClimConvert(shapes=()))
     cs.append(ClimConvert(shapes=(("month", True, True), (None, False, False))))
     cs.append(ClimConvert(shapes=((None, False, True), ("week", True, False))))
